@@ -135,6 +135,20 @@ def oracle(c, ctx, fmt, validator):
             continue
         msg1 = e.format(fmt)
         msg2 = e.format(fmt)
+        # the same error through format_result with a formatter of the caller's (its own root name)
+        try:
+            from d42.validation import Formatter, ValidationResult, format_result
+            single = ValidationResult()
+            single.add_error(e)
+            custom_lines = format_result(single, Formatter("response.body"))
+            own = e.format(Formatter("response.body"))
+            if len(custom_lines) != 2 or own not in custom_lines[1]:
+                bad.append(f"{type(e).__name__}: format_result(result, Formatter('response.body')) renders {custom_lines[1:]!r}, "
+                           f"the formatter itself renders {own!r}")
+                continue
+        except Exception as ex:  # noqa
+            bad.append(f"{type(e).__name__}: format_result with a custom formatter raised {type(ex).__name__}")
+            continue
         after = [op.operand for op in e.path]
         n = type(e).__name__
         if n == "MissingKeyValidationError":
